@@ -103,7 +103,7 @@ def plan(seed, length, w):
         if calls and calls[-1]["fn"] == "remove_arc" and rng.random() < 0.7:
             nm = rng.choice(["scores", "leaves_map", "to_lmap"])       # look at the views right after an in-place update
         calls.append({"fn": nm, "vt": rng.choice([0, 0, 3, 5]), "tab": rng.random() < 0.5, "t": rng.choice([1, 2, 3]),
-                      "d": rng.randint(0, 3), "seed": rng.randrange(1 << 20), "edit": rng.random() < 0.5,
+                      "d": rng.randint(0, 3), "seed": rng.choice([0, 0, 1, rng.randrange(1 << 20), rng.randrange(1 << 20)]), "edit": rng.random() < 0.5,
                       "flags": rng.randrange(4), "n": rng.randrange(1 << 40), "w": rng.randint(0, 45)})
     return calls
 
